@@ -9,6 +9,7 @@ First-order branch of `VForm.replace_physical_derivs` for a basis function (vfor
 is the left-associated sum of the products.  No Mathlib.
 -/
 import Pyiga.Model.VForm
+import Pyiga.Model.SLP
 
 namespace Pyiga.VForm
 open Expr
@@ -241,5 +242,23 @@ def replacePhysRaisesST (dim : Nat) (physIn : List String) : Expr → Option Str
       else if par then none
       else some "err-AttributeError"
   | _ => none
+
+/-! ### the derived variables the pass introduces, as a program (`vf.vars` after the pass; `linear_deps` order) -/
+
+def ghtIndices (dim : Nat) : List (Nat × Nat × Nat) :=
+  (List.range dim).flatMap fun k => (List.range dim).flatMap fun i => (List.range dim).map fun j => (k, i, j)
+
+/-- name ↦ defining expression: `Jac`, `JacInv`, and every `_geo_hess_trf_k_i_j` (the pass creates the ones it needs; the
+list has all of them) -/
+def physVarDefs (dim : Nat) : List (String × Expr) :=
+  [("Jac", jacDef dim dim), ("JacInv", jacInvDef dim)] ++
+    (ghtIndices dim).map fun (k, i, j) => (geoHessTrfName k i j, geoHessTrfDef dim k i j)
+
+/-- the same as a straight-line program over whole (tensor-valued) variables: `Jac` reads only the geometry input,
+`JacInv` reads `Jac`, every `_geo_hess_trf_*` reads `JacInv` (and the geometry input; `Jac` is listed too — reads may be
+over-approximated) -/
+def physVarProg (dim : Nat) : SLP.Prog :=
+  [⟨"Jac", [], "Jac"⟩, ⟨"JacInv", ["Jac"], "JacInv"⟩] ++
+    (ghtIndices dim).map fun (k, i, j) => ⟨geoHessTrfName k i j, ["JacInv", "Jac"], geoHessTrfName k i j⟩
 
 end Pyiga.VForm
